@@ -14,8 +14,11 @@ import (
 	"bytes"
 	"context"
 	"encoding/binary"
+	"encoding/json"
 	"errors"
 	"fmt"
+	"github.com/sirupsen/logrus"
+	"io"
 	"net"
 	"os"
 	"runtime"
@@ -788,6 +791,10 @@ func firstLines(s string, n int) string {
 func engineCuts(f *rep.Flags, res *rep.Result) {
 	adaptation.SetPluginRequestTimeout(reqTimeout)
 	callNames := []string{"CreateContainer", "UpdateContainer", "StopContainer", "StartContainer"}
+	sched := f.Engine == "cutsched"
+	if sched && !f.Thorough() {
+		callNames = []string{"CreateContainer", "StopPodSandbox"}
+	}
 	if f.Thorough() {
 		callNames = nil
 		for _, lc := range calls {
@@ -816,6 +823,9 @@ func engineCuts(f *rep.Flags, res *rep.Result) {
 				}
 				for k := int64(0); k < rs; k++ {
 					cases = append(cases, cutCase{Call: cn, N: n, Victim: v, Fault: "cut-response", Offset: k})
+				}
+				if sched {
+					continue // the delayed-caller schedule: cuts of the request and of the response only
 				}
 				for k := int64(0); k < rq; k++ {
 					cases = append(cases, cutCase{Call: cn, N: n, Victim: v, Fault: "rt-cut-write", Offset: k})
@@ -877,7 +887,11 @@ func engineCuts(f *rep.Flags, res *rep.Result) {
 					continue // enough evidence of stalls; every further one costs the full horizon
 				}
 				v, sig := runCutCase(c)
-				if len(v) > 0 {
+				if len(v) > 0 && strings.Contains(sig, "|request-failed|") && !strings.Contains(v[0], "deadline exceeded") && !strings.Contains(v[0], "timed out") {
+					// a request that came back with an error other than a timeout is an observation no
+					// amount of machine load can produce: believed at once, even if it is rare
+					v[0] += " (observed once; not re-executed: which error a call in flight sees when its connection fails depends on the schedule)"
+				} else if len(v) > 0 {
 					// not believed yet: confirmed sequentially, without the load of the parallel phase
 					mu.Lock()
 					suspects = append(suspects, c)
@@ -951,6 +965,34 @@ func main() {
 		res.Rule = "full stack; for each request type and victim position every byte offset of the request and of the response is a cut point; plus stop before/inside/after the handler, hang past the request timeout, black hole, deliberate handler error; schedules underneath are free-running (ttrpc goroutines): exhaustive over fault points, not over interleavings; a violation is believed only if it reproduces on re-execution"
 		res.Assumptions = []string{"request timeout set to 150 ms; a request is declared stalled only after plugins x timeout + 10 s", "in-process stubs over real unix sockets"}
 		engineCuts(f, res)
+	case "cutsched":
+		res.Rule = "the victim's connection is cut after every byte of its response (and of the request) while every calling goroutine of the runtime is held for 30 ms between sending its request and waiting for the answer (a delay point inserted into the ttrpc client at build time: the schedule in which the caller is preempted there), so that the connection's failure and the end of the call are both pending when the caller looks; oracle as for the cuts"
+		res.Assumptions = []string{"ttrpc's client.go is patched at build time with a delay point that is off by default"}
+		ttrpc.VerifDispatchDelayNS = int64(30 * time.Millisecond)
+		engineCuts(f, res)
+	case "repeat":
+		// experiment: one case (VERIF_CASE, JSON) executed VERIF_N times, failures counted by signature
+		logrus.SetOutput(io.Discard)
+		adaptation.SetPluginRequestTimeout(reqTimeout)
+		var c cutCase
+		if err := json.Unmarshal([]byte(os.Getenv("VERIF_CASE")), &c); err != nil {
+			rep.Fatal(f, "VERIF_CASE: %v", err)
+		}
+		n := 100
+		fmt.Sscan(os.Getenv("VERIF_N"), &n)
+		cnt := map[string]int{}
+		for i := 0; i < n; i++ {
+			v, sig := runCutCase(c)
+			if len(v) > 0 {
+				cnt[sig+" :: "+firstLines(v[0], 1)]++
+			}
+		}
+		res.Evaluations = int64(n)
+		res.Exhaustive = false
+		res.Supporting = true
+		for k, v := range cnt {
+			res.Notes = append(res.Notes, fmt.Sprintf("%d of %d runs: %s", v, n, k))
+		}
 	default:
 		rep.Fatal(f, "unknown engine %q", f.Engine)
 	}
